@@ -463,6 +463,8 @@ class Interp:
                     return self.apply(fv, [self.val(a, env) for a in e.get('args', [])])
             if f.get('k') == 'closure':
                 return self.apply(('closure', f, dict(env)), [self.val(a, env) for a in e.get('args', [])])
+            if p.startswith('core::panicking::') or p.startswith('std::rt::begin_panic') or p.startswith('core::panic::'):
+                raise EvalPanic(f'explicit panic (line {e.get("l")})')
             args = [self.val(a, env) for a in e.get('args', [])]
             seg = last_seg(p)
             body = self._workspace_body(f)
@@ -965,4 +967,29 @@ class ParseValueInterp(FxInterp):
     def val(self, e, env):
         if e.get('k') == 'mcall' and e.get('name') == 'parse_next':
             return ('ctor', 'core::result::Result::Ok', (self.output_of(e['recv'], env),))
+        return super().val(e, env)
+
+
+class RecInterp(FxInterp):
+    """FxInterp that records calls of the named methods (receiver not evaluated further) instead of following them:
+    env['@calls'] collects (name, [argument values])."""
+
+    def __init__(self, ev, record):
+        super().__init__(ev)
+        self.record = set(record)
+        self.calls = []
+
+    def val(self, e, env):
+        if e.get('k') == 'call' and (peel(e.get('f', {})).get('path') or '') in ('core::mem::replace', 'std::mem::replace', 'core::mem::swap', 'core::mem::take'):
+            self.calls.append((last_seg(peel(e['f'])['path']), []))
+            return ('opaque',)
+        if e.get('k') == 'mcall' and e.get('name') in self.record:
+            args = []
+            for a in e.get('args', []):
+                try:
+                    args.append(self.val(a, env))
+                except Unanalysable:
+                    args.append(('opaque',))
+            self.calls.append((e['name'], args))
+            return ('opaque',)
         return super().val(e, env)
